@@ -37,6 +37,26 @@ theorem pool_getters :
        "ControlHandler_HandleClose", "ControlHandler_HandlePing", "ControlHandler_HandlePong", "GetWriter",
        "Writer_WriteThrough", "writeFrame"].map String.toList := by decide +kernel
 
+/-- text of a fact line after "<function>: " -/
+def siteOf (s : String) : List Char := (s.toList.dropWhile (· != ':')).drop 2
+
+/-- A release that is not inside a `defer`: the extractor lists a deferred release twice (once as
+    "defer …", once as the call it finds inside the deferred statement), so a function releases
+    only in deferred calls exactly when each release text occurs as often plain as deferred. The
+    exported Put* wrappers are releases by definition. -/
+def releasesOnlyDeferred (facts : List String) : Bool :=
+  (facts.filter fun s => mentions s ".Put" && !mentions s ": defer ").all fun p =>
+    "Put".toList.isPrefixOf (fnOf p) ||
+    (facts.filter (· == p)).length
+      == (facts.filter fun d => fnOf d == fnOf p && siteOf d == "defer ".toList ++ siteOf p).length
+
+/-- No buffer goes back to a pool before the function that took it returns: every release is a
+    deferred one (an early `PutReader(br)` while views into the buffer are still to be written out
+    would hand another session a buffer that is still read). -/
+theorem pool_released_only_on_return :
+    releasesOnlyDeferred Gen.facts_ws_pool = true ∧ releasesOnlyDeferred Gen.facts_wsutil_pool = true := by
+  decide +kernel
+
 def isMutation (s : String) : Bool :=
   mentions s ": write " || mentions s ": copy " || mentions s ": append " || mentions s ": addr "
 
